@@ -38,9 +38,9 @@ VERIF_TARGET(c01_txinputs, nullptr, 24, 256,
              "Precondition respected: coin values are clamped so the running int64 input sum cannot overflow before the range check. "
              "non-trivial = a value or sum within +-2 of 0/MAX_MONEY/INT64 limits participates; distinct = verdict + boundary kinds + nin")
 {
-    // one cache object per process (its pool allocator maps 256 KiB on construction), emptied with the documented Reset()
+    // one cache object per process (its pool allocator maps 256 KiB on construction), emptied by the documented reset guard
     static CCoinsViewCache view(&CoinsViewEmpty::Get());
-    view.Reset();
+    { auto wipe = view.CreateResetGuard(); }
     const int spend_height = s.chance(200) ? s.range<int>(100, 400) : s.range<int>(0, std::numeric_limits<int>::max());
     const unsigned nin = s.range<unsigned>(1, 6);
     struct In { bool present; int64_t value; bool coinbase; int height; };
